@@ -123,6 +123,7 @@ def run(prop: str, ctx, rep):
                              "detected": sum(r["status"] == "detected" for r in results),
                              "skipped": sum(r["status"] == "skipped" for r in results),
                              "fail_closed": sum(r["status"] == "analysis-error" for r in results),
+                             "skipped_labels": [r["label"] for r in results if r["status"] == "skipped"],
                              "missed": [r["label"] for r in missed]}
     if missed:
         raise AnalysisError("self-test: the rules did not detect variant(s) " + ", ".join(r["label"] for r in missed))
